@@ -27,6 +27,9 @@ def gen_plan(run_seed, fault_mode='none'):
     ops = []
     tid = 0
     n = wl.randint(2, 14)
+    if wl.random() < 0.004:
+        n = wl.randint(100, 300)  # a long-lived worker
+        cfg['granularity'] = 'sync'
     p_raise = 0.15 if fault_mode == 'task_raises' else 0.0
     for _ in range(n):
         r = wl.random()
